@@ -1121,6 +1121,11 @@ func (w *world) checkOp(oi int, entry, opctx, loc string, log []event, limitHit 
 			if e.Call {
 				continue
 			}
+			if w.history && e.Kind == "refused" && e.N >= defBase {
+				// the handler of a FUNCTION: its file was evaluated (and judged)
+				// when it was loaded, maybe under another configuration
+				continue
+			}
 			if n := w.m.files[e.ID]; n == nil || !w.isInside(n) {
 				return vcommon.Failf(w.keyPrefix()+"escape/outside-effect", "%s: effect %s(%s) recorded: a file outside the root was evaluated", where, e.Kind, e.ID)
 			}
